@@ -32,6 +32,10 @@ def _comp(n):
     return out
 
 
+UNK_LONG = bytes([0x0A, 0, 0, 0, 0, 40]) + bytes(range(40))
+INV_LONG = bytes([0x01, 0, 0, 0, 0, 60]) + b'\x00\x01' + b'X' * 58
+
+
 def corpus():
     P = F.PEER
     rq_store = R.build_pdu(F.assoc_rq_tree(contexts=((1, F.VERIFICATION, (F.IMPLICIT,)),
@@ -77,6 +81,13 @@ def corpus():
         'A9-request-then-abort': ('acceptor', [('peer', [P['pRQ'], P['pABORT']])]),
         'A10-request-then-close': ('acceptor', [('peer', [P['pRQ']]), ('close',)]),
         'A11-request-then-data': ('acceptor', [('peer', [P['pRQ'], P['pDATA'], P['pRELRQ']]), ('close',)]),
+        # PDUs the provider cannot recognise or decode, longer than what follows them
+        'A12-invalid-then-abort': ('acceptor', [('peer', [P['pRQ']]), ('user', 'uAC'),
+                                                ('peer', [UNK_LONG, P['pABORT']])]),
+        'A13-invalid-twice': ('acceptor', [('peer', [P['pRQ']]), ('user', 'uAC'),
+                                           ('peer', [INV_LONG, P['pUNK'], P['pRQ']]), ('close',)]),
+        'A14-invalid-first': ('acceptor', [('peer', [INV_LONG, P['pABORT']])]),
+        'R8-invalid-reply': ('requestor', [('peer', [UNK_LONG, P['pUNK'], P['pABORT']])]),
         'R1-echo': ('requestor', [('peer', [P['pAC']]), ('user', 'uDATA'), ('peer', [echo_rsp]),
                                   ('user', 'uRELRQ'), ('peer', [P['pRELRP']])]),
         'R2-find': ('requestor', [('peer', [ac_store]), ('user', 'uDATA2'), ('peer', find_rsps),
